@@ -102,6 +102,13 @@ fn registry() -> Vec<CheckDef>
 			case_timeout_ms: 20_000,
 			level_text: "exhaustive enumeration of token sequences (full, and viable-prefix breadth-first from the empty input and from non-initial contexts), character strings and fragment concatenations, the single-fault neighbourhood of grammar-derived programs and corpus files, nesting pumps and all histories of up to three module kinds through one Compiler; every case runs the complete real pipeline in a crash-isolated worker under the invariant: success with IR, or failure with at least one diagnostic",
 		},
+		CheckDef {
+			id: "C03",
+			drive: checks::c03::drive,
+			work: checks::c03::work,
+			case_timeout_ms: 30_000,
+			level_text: "every accepted program of the exhaustive spaces (complete type matrix, all label/variable/placement bodies up to a size bound, all declaration shapes natively and for wasm, all module histories, the corpus) is compiled by the real pipeline; the printed IR of every module and of the linked program is judged by LLVM's own assembler and verifier as separate processes and by a linkage model",
+		},
 	]
 }
 
